@@ -1,5 +1,5 @@
 """Property -> rule instances (DESIGN section 4). Each entry is a function facts -> [RuleResult]."""
-from . import dim, atomic, tag, pair, canon, deleg, guard, table, wire
+from . import dim, atomic, tag, pair, canon, deleg, guard, table, wire, flow
 
 ALGO_FILES = {
     "C09": ("src/algo/mod.rs",),
@@ -298,6 +298,33 @@ PROPS["C17"]["decides"] += "; the four wire structs agree on field order, contai
 PROPS["C18"]["rules"].append(sub(_cached("wire.graph6", wire.graph6_constants), lambda f, s: True, 6))
 PROPS["C18"]["decides"] += "; graph6 encoder and decoder agree on N = 63, 6 bits per byte, the order < N / first byte == N header split, " \
                            "18 header bits = 3 decoder bytes, and the 258047 cap"
+
+_flow_acyclic = _cached("flow.acyclic", flow.acyclic)
+_flow_dot = _cached("flow.dot", flow.dot_sanitiser)
+PROPS["C14"]["rules"].append(sub(_flow_acyclic, lambda f, s: True, 9))
+PROPS["C14"]["decides"] += "; the inner graph's add_edge/update_edge is reached only after a != b and update_ordering == Ok; the scratch bit sets are " \
+                           "cleared on every path from the cone DFS to the return; Graph::remove_node is followed by re-keying the order map; " \
+                           "add_node/remove_node touch graph and order map together"
+PROPS["C18"]["rules"].append(sub(_flow_dot, lambda f, s: True, 5))
+PROPS["C18"]["decides"] += "; every user-formatted label (FnFmt) is wrapped in Escaped, the user closures are never called with the raw formatter, " \
+                           "Escaped::fmt writes through an Escaper, edge statements print to_index(source) before to_index(target)"
+
+WITNESSES = {
+    "C01": ["frozen_no_add_node", "graph_nodes_private"],
+    "C02": ["stable_not_compact", "stable_counts_private"],
+    "C03": ["graphmap_private"],
+    "C04": ["matrix_not_compact", "matrix_private"],
+    "C05": ["csr_private"],
+    "C06": ["stable_not_compact", "matrix_not_compact", "nodefiltered_no_count", "nodefiltered_not_compact", "edgefiltered_no_edgecount", "frozen_no_add_node"],
+    "C07": ["stable_not_compact", "matrix_not_compact", "nodefiltered_not_compact", "floyd_warshall_stable", "connected_components_stable", "isomorphic_stable"],
+    "C09": ["connected_components_stable"],
+    "C11": ["floyd_warshall_stable"],
+    "C14": ["acyclic_no_derefmut", "acyclic_fields_private", "acyclic_inner_mut_private"],
+    "C19": ["unionfind_private", "unionfind_find_mut_needs_mut"],
+}
+for _pid, _w in WITNESSES.items():
+    PROPS[_pid]["witness"] = _w
+    PROPS[_pid]["decides"] += "; type-level witnesses (compile_fail + compiling twin): " + ", ".join(_w)
 
 NOT_APPLICABLE = {
     "C13": "VF2 (sub)graph isomorphism is the result of a backtracking search over runtime adjacency; no clause of it is visible "
